@@ -78,6 +78,35 @@ CtrlsC06 == { Ctl("p1", "f1", "AController", "/a", "A", <<>>) }
 MethodsC06 == { MthP(verb, ps, ret, errs, resp) : verb \in {"POST"}, ps \in ParamLists, ret \in RetShapes,
                                                     errs \in {<<>>, <<E(500)>>, <<E(400), E(500)>>}, resp \in {0, 201} }
 
+\* ---- C07 / C11: type graphs --------------------------------------------------------------------------------------------
+FldE(t) == [name |-> "", type |-> t, json |-> "", valid |-> "", desc |-> "", embed |-> TRUE]
+Ty(pkg, name, kind, base, fields, consts) == [pkg |-> pkg, file |-> "types", name |-> name, kind |-> kind, base |-> base, fields |-> fields, consts |-> consts,
+                                              desc |-> "", raw |-> "", errorT |-> FALSE]
+\* a struct exercising every field form: renamed, omitempty, unexported, json "-", no tag, pointer, slices, map, time, bytes,
+\* enum field with a usage-site validator, self reference, cross-package reference, nested slice of pointers
+TOrder == Ty("p1", "Order", "struct", "", <<Fld("ID", "string", "id", "required,uuid"), Fld("Qty", "int", "qty,omitempty", "gte=1,lte=100"), Fld("Note", "*string", "", ""),
+                                              Fld("secret", "string", "", ""), Fld("Skip", "string", "-", ""), Fld("Tags", "[]string", "tags", "required"),
+                                              Fld("Meta", "map[string]int", "meta", ""), Fld("When", "time.Time", "when", ""), Fld("Raw", "[]byte", "raw", ""),
+                                              Fld("Col", "p1.Color", "col", "required"), Fld("Next", "*p1.Order", "next", ""), Fld("Lines", "[]p2.Line", "lines", ""),
+                                              Fld("Price", "float64", "price", "gt=0")>>, <<>>)
+TLine  == Ty("p2", "Line", "struct", "", <<Fld("Sku", "string", "sku", "required,min=1,max=10"), Fld("Level", "p2.Level", "level", ""), Fld("Alias", "p2.Code", "alias", "")>>, <<>>)
+TLevel == Ty("p2", "Level", "enum", "int", <<>>, <<Con("Low", "1"), Con("High", "2")>>)
+TCode  == Ty("p2", "Code", "alias", "string", <<>>, <<>>)
+TBase  == Ty("p1", "Base", "struct", "", <<Fld("Created", "time.Time", "created", ""), Fld("By", "string", "by", "email")>>, <<>>)
+TDeriv == Ty("p1", "Derived", "struct", "", <<FldE("p1.Base"), Fld("Extra", "bool", "extra", "")>>, <<>>)
+TUnused == Ty("p1", "Unused", "struct", "", <<Fld("X", "int", "x", "")>>, <<>>)
+TFlag  == Ty("p1", "Flag", "enum", "string", <<>>, <<Con("On", "\"on\""), Con("Off", "\"off\"")>>)
+\* the same enum used with a usage-site oneof: must not change the shared component
+TUser  == Ty("p1", "User", "struct", "", <<Fld("Name", "string", "name", "required"), Fld("Flag", "p1.Flag", "flag", "required,oneof=on")>>, <<>>)
+TypeZoo == { <<TItem, TMyErr, TColor, TOrder, TLine, TLevel, TCode, TUnused>>, <<TItem, TMyErr, TColor, TBase, TDeriv, TUnused>>,
+             <<TItem, TMyErr, TColor, TFlag, TUser>>, <<TItem, TMyErr, TColor, TFlag, TUser, TOrder, TLine, TLevel, TCode, TBase, TDeriv>> }
+ParamsC07 == { Prm("e", t, "Body", "", "") : t \in {"p1.Order", "*p1.Order", "[]p1.Order", "p1.Derived", "p1.User", "p1.Item", "map[string]p1.Item"} }
+             \cup { Prm("b", t, "Query", "", "") : t \in {"p1.Flag", "p2.Level", "p2.Code", "string"} }
+RetsC07 == { <<"error">>, <<"p1.Order", "error">>, <<"[]p1.Derived", "error">>, <<"p1.User", "error">>, <<"p2.Line", "error">>, <<"*p1.Item", "error">>, <<"p1.Flag", "error">>,
+             <<"map[string]p2.Line", "error">>, <<"p1.Item", "p1.MyErr">> }
+CfgsC07 == CfgsC06
+MethodsC07 == { MthP("POST", ps, ret, errs, 0) : ps \in {<<>>} \cup {<<a>> : a \in ParamsC07}, ret \in RetsC07, errs \in {<<>>, <<E(500)>>} }
+
 \* ---- C10 / C18: every single and double perturbation of two well-formed base routes --------------------------------------
 An(k, v, al) == [kind |-> k, value |-> v, alias |-> al, validate |-> "", desc |-> ""]
 Sg(n, t) == [name |-> n, type |-> t]
